@@ -64,7 +64,7 @@ fn close(a: f64, b: f64) -> bool {
 fn scale_scenario(factor: f64, a: f64, s: f64, e: f64) -> serde_json::Value {
     use cooklang::scale::ScaleOutcome;
     let text = format!(
-        ">> servings: 2|4\n@flour{{{a}%g}} @salt{{=1.25%tsp}} @water{{{s}-{e}%l}} @pepper{{some}} @egg{{1 1/2}} #pan{{2}} ~rest{{10%min}} @oil{{=2-3%tbsp}} @sugar{{{a}%zz}} #bowl ~{{5%min}}\n"
+        ">> servings: 4|2|8\n@flour{{{a}%g}} @salt{{=1.25%tsp}} @water{{{s}-{e}%l}} @pepper{{some}} @egg{{1 1/2}} #pan{{2}} ~rest{{10%min}} @oil{{=2-3%tbsp}} @sugar{{{a}%zz}} #bowl ~{{5%min}}\n"
     );
     let parser = cooklang::CooklangParser::extended();
     let c = parser.converter().clone();
@@ -139,12 +139,12 @@ fn scale_scenario(factor: f64, a: f64, s: f64, e: f64) -> serde_json::Value {
             other => problems.push(format!("default scale water: {:?}", other)),
         }
         // servings: scaling to n equals scaling by n / first declared servings
-        if meta_servings.as_deref() != Some(&[2, 4][..]) { problems.push(format!("servings read as {:?}", meta_servings)); }
+        if meta_servings.as_deref() != Some(&[4, 2, 8][..]) { problems.push(format!("servings read as {:?}", meta_servings)); }
         let n = 7u32;
         let by_servings = parse().unwrap().scale_to_servings(n, &c);
-        let by_factor = parse().unwrap().scale(n as f64 / 2.0, &c);
-        if by_servings.ingredients != by_factor.ingredients { problems.push("scale_to_servings(7) differs from scale(7/2)".into()); }
-        match by_servings.scaled_data() { Some(dd) if close(dd.target.factor(), 3.5) => {}, _ => problems.push("scale_to_servings target factor".into()) }
+        let by_factor = parse().unwrap().scale(n as f64 / 4.0, &c);
+        if by_servings.ingredients != by_factor.ingredients { problems.push("scale_to_servings(7) differs from scale(7/4) (servings 4|2|8)".into()); }
+        match by_servings.scaled_data() { Some(dd) if close(dd.target.factor(), 1.75) => {}, _ => problems.push("scale_to_servings target factor".into()) }
         problems
     });
     match run {
@@ -280,6 +280,13 @@ fn main() {
             expect("R+N", &rng(a_s, a_e), &num(bn));
             expect("R+R", &rng(a_s, a_e), &rng(b_s, b_e));
             expect("F+N", &frac, &num(bn));
+            // fractions that carry an approximation error (as produced by a lossy fit): the error is part of the amount
+            let fr = |w: u32, n: u32, d: u32, e: f64| Value::Number(Number::Fraction { whole: w, num: n, den: d, err: e });
+            expect("F+Fe", &fr(0, 1, 3, 0.0), &fr(0, 1, 3, 0.0125));
+            expect("Fe+F", &fr(0, 1, 3, 0.0125), &fr(0, 1, 3, 0.0));
+            expect("Fe+Fe", &fr(1, 1, 4, -0.01), &fr(2, 3, 4, 0.02));
+            expect("R+Fe", &rng(a_s, a_e), &fr(0, 1, 4, 0.01));
+            expect("Fe+R", &fr(0, 1, 2, 0.02), &Value::Range { start: Number::Fraction { whole: 0, num: 1, den: 2, err: 0.003 }, end: Number::Regular(b_e) });
             expect("T+N", &txt("pinch"), &num(bn));
             expect("R+T", &rng(a_s, a_e), &txt("some"));
             expect("T+T", &txt("a"), &txt("b"));
@@ -289,6 +296,7 @@ fn main() {
                 vec![num(an), num(bn), txt("x")],
                 vec![txt("x"), txt("y"), rng(a_s, a_e)],
                 vec![rng(a_s, a_e), txt("x"), frac.clone(), txt("x")],
+                vec![fr(1, 1, 2, 0.0), fr(0, 1, 2, 0.02), fr(2, 1, 2, -0.015)],
             ];
             for h in &hist {
                 let r = std::panic::catch_unwind(|| { let mut g = GroupedValue::empty(); for v in h { g.add(v); } g.into_vec() });
@@ -309,7 +317,83 @@ fn main() {
                     }
                 }
             }
+            // ScaledQuantity::try_add through the public API: the total is the sum of both amounts, in the left unit
+            {
+                let c = Converter::bundled();
+                let q = |v: Value, u: Option<&str>| cooklang::quantity::Quantity::new(v, u.map(|s| s.to_string()));
+                let cases: Vec<(cooklang::quantity::ScaledQuantity, cooklang::quantity::ScaledQuantity, &str, f64, f64)> = vec![
+                    (q(num(1.0), Some("kg")), q(num(0.4), Some("g")), "g", 1000.4, 1000.4),
+                    (q(num(2.0), Some("l")), q(num(0.25), Some("ml")), "ml", 2000.25, 2000.25),
+                    (q(rng(2.0, 3.0), Some("l")), q(num(0.4), Some("ml")), "ml", 2000.4, 3000.4),
+                    (q(num(an.abs() + 1.0), Some("cup")), q(num(bn.abs() + 0.0004), Some("cup")), "cup", an.abs() + bn.abs() + 1.0004, an.abs() + bn.abs() + 1.0004),
+                ];
+                for (l, r, unit, ws, we) in &cases {
+                    match std::panic::catch_unwind(|| l.try_add(r, &c)) {
+                        Err(_) => problems.push(format!("ScaledQuantity::try_add panicked on {} + {}", l, r)),
+                        Ok(Err(e)) => problems.push(format!("{} + {} refused: {}", l, r, e)),
+                        Ok(Ok(sum)) => {
+                            if sum.unit() != l.unit() { problems.push(format!("{} + {}: unit became {:?}", l, r, sum.unit())); }
+                            match amount_in(&c, &sum, unit) {
+                                Some((s, e)) if close(s, *ws) && close(e, *we) => {}
+                                other => problems.push(format!("{} + {} = {} i.e. {:?} {}, expected {}..{}", l, r, sum, other, unit, ws, we)),
+                            }
+                        }
+                    }
+                }
+                // unitless
+                let (l, r) = (q(num(0.0004), None), q(num(0.0004), None));
+                match l.try_add(&r, &c) { Ok(sum) => match ends(sum.value()) { Some((s, _, _)) if close(s, 0.0008) => {}, o => problems.push(format!("0.0004 + 0.0004 = {:?}", o)) }, Err(e) => problems.push(format!("unitless add refused: {e}")) }
+            }
+            // merges: every text of both groups kept in order, numeric totals summed
+            let merges: Vec<(Vec<Value>, Vec<Value>)> = vec![
+                (vec![num(an)], vec![txt("big")]),
+                (vec![], vec![txt("big"), txt("small")]),
+                (vec![num(an), txt("a lid")], vec![txt("big"), txt("small")]),
+                (vec![txt("x")], vec![rng(b_s, b_e), txt("y")]),
+                (vec![num(an), txt("x")], vec![num(bn)]),
+                (vec![rng(a_s, a_e)], vec![]),
+            ];
+            for (h1, h2) in &merges {
+                let r = std::panic::catch_unwind(|| {
+                    let mut g1 = GroupedValue::empty();
+                    for v in h1 { g1.add(v); }
+                    let mut g2 = GroupedValue::empty();
+                    for v in h2 { g2.add(v); }
+                    g1.merge(&g2);
+                    g1.into_vec()
+                });
+                match r {
+                    Err(_) => problems.push(format!("GroupedValue::merge panicked on {:?} <- {:?}", h1, h2)),
+                    Ok(out) => {
+                        let all: Vec<&Value> = h1.iter().chain(h2.iter()).collect();
+                        let texts: Vec<&&Value> = all.iter().filter(|v| v.is_text()).collect();
+                        let nums: Vec<&&Value> = all.iter().filter(|v| !v.is_text()).collect();
+                        let want_len = texts.len() + if nums.is_empty() { 0 } else { 1 };
+                        if out.len() != want_len { problems.push(format!("merge {:?} <- {:?} has {} entries {:?}, expected {}", h1, h2, out.len(), out, want_len)); continue; }
+                        let off = if nums.is_empty() { 0 } else { 1 };
+                        for (i, t) in texts.iter().enumerate() { if &&&out[off + i] != t { problems.push(format!("merge {:?} <- {:?}: text entry {} lost or reordered: {:?}", h1, h2, i, out)); } }
+                        if !nums.is_empty() {
+                            let (mut s, mut e, mut r) = (0.0, 0.0, false);
+                            for n in &nums { let (a, b, rr) = ends(n).unwrap(); s += a; e += b; r |= rr; }
+                            match ends(&out[0]) { Some((gs, ge, gr)) if gr == r && close(gs, s) && close(ge, e) => {}, other => problems.push(format!("merge total {:?} expected {}..{}", other, s, e)) }
+                        }
+                    }
+                }
+            }
             println!("{}", json!({"problems": problems}));
+        }
+        "convert_fraction" => {
+            // convert_fraction <whole> <num> <den> <err> <from> <to>: ScaledQuantity::convert of a fraction carrying a recorded error
+            use cooklang::convert::{ConvertTo, ConvertUnit};
+            let c = Converter::bundled();
+            let n = Number::Fraction { whole: args[2].parse().unwrap(), num: args[3].parse().unwrap(), den: args[4].parse().unwrap(), err: f(&args[5]) };
+            let mut q = cooklang::quantity::Quantity::new(Value::Number(n), Some(args[6].clone()));
+            let r = std::panic::catch_unwind(move || { let r = q.convert(ConvertTo::Unit(ConvertUnit::Key(&args[7])), &c); (r.is_ok(), q) });
+            match r {
+                Ok((true, q)) => match q.value() { Value::Number(n) => println!("{}", json!({"n": n.value(), "unit": q.unit()})), v => println!("{}", json!({"error": format!("{:?}", v)})) },
+                Ok((false, _)) => println!("{}", json!({"error": "conversion refused"})),
+                Err(_) => println!("{}", json!({"error": "panic"})),
+            }
         }
         "convert_raw" => {
             // convert_raw <value> <ratio_a> <diff_a> <ratio_b> <diff_b>
